@@ -59,6 +59,7 @@ type Spec struct {
 	GateKill          string `json:"gateKill,omitempty"`      // gate the OnKill handler blocks on
 	RespawnKilled     bool   `json:"respawnKilled,omitempty"` // on a child's OnKilled (while running) respawn it under the same name, once per name
 	RespawnAlways     bool   `json:"respawnAlways,omitempty"` // with RespawnKilled: every time, not once per name
+	LateSpawn         int    `json:"lateSpawn,omitempty"`     // while terminating: on a child's OnKilled spawn a fresh child "lateN" (at most this many times)
 }
 
 // Msg is the only user message.
@@ -87,6 +88,7 @@ type Ev struct {
 	Count int    `json:"count,omitempty"` // the instance's user-message counter after this delivery
 	Sched bool   `json:"sched,omitempty"`
 	Note  string `json:"note,omitempty"`
+	Fails bool   `json:"fails,omitempty"` // the handler of this delivery raises a failure (panic or Failed): the actor is suspended from here until its supervisor has decided
 }
 
 func (e Ev) String() string {
@@ -474,6 +476,7 @@ type probe struct {
 	stashedOnce map[int]bool
 	respawned   map[string]bool
 	gotKill     bool
+	lateSpawned int
 }
 
 type hookFailure struct{ what string }
@@ -547,7 +550,7 @@ func (p *probe) receive(ctx vivid.ActorContext, beh string) {
 	}
 	switch m := ctx.Message().(type) {
 	case *vivid.OnLaunch:
-		w.record(Ev{Actor: me, Inst: p.inst, Kind: "launch", From: from, Beh: beh, Count: p.count})
+		w.record(Ev{Actor: me, Inst: p.inst, Kind: "launch", From: from, Beh: beh, Count: p.count, Fails: contains(p.sh.spec.FailLaunch, p.sh.incar)})
 		if contains(p.sh.spec.FailLaunch, p.sh.incar) {
 			panic(fmt.Sprintf("verif: OnLaunch failure of incarnation %d", p.sh.incar))
 		}
@@ -571,6 +574,12 @@ func (p *probe) receive(ctx vivid.ActorContext, beh string) {
 			if p.sh.spec.FailOnOwnKilled {
 				panic("verif: own OnKilled failure")
 			}
+		} else if p.sh.spec.LateSpawn > p.lateSpawned && p.gotKill && strings.HasPrefix(rp, me+"/") && !strings.Contains(rp[len(me)+1:], "/") {
+			// clean-up code that starts a helper while the actor is already being terminated
+			p.lateSpawned++
+			name := fmt.Sprintf("late%d", p.lateSpawned)
+			_, err := w.spawn(ctx, p.name(ctx), Spec{Name: name})
+			w.call(p.name(ctx), "latespawn:"+name, 0, err, "")
 		} else if p.sh.spec.RespawnKilled && !p.gotKill && strings.HasPrefix(rp, me+"/") && !strings.Contains(rp[len(me)+1:], "/") && (!p.respawned[rp] || p.sh.spec.RespawnAlways) {
 			// the parent was told that its child terminated: the name must be free again
 			if p.respawned == nil {
@@ -596,7 +605,7 @@ func (p *probe) receive(ctx vivid.ActorContext, beh string) {
 			ctx.Stash()
 			return
 		}
-		w.record(Ev{Actor: me, Inst: p.inst, Kind: "msg", ID: m.ID, From: from, Beh: beh, Count: p.count, Sched: m.Sched})
+		w.record(Ev{Actor: me, Inst: p.inst, Kind: "msg", ID: m.ID, From: from, Beh: beh, Count: p.count, Sched: m.Sched, Fails: hasFailure(m.Do)})
 		if s := ctx.Sender(); s != nil {
 			w.mu.Lock()
 			w.senders[strings.TrimPrefix(me, "/")] = s
@@ -746,6 +755,16 @@ func (p *probe) run(ctx vivid.ActorContext, prog []Step, curID int) {
 			panic("harness: unknown step op " + st.Op)
 		}
 	}
+}
+
+// hasFailure: the program raises a failure in the handler that runs it (top-level steps only).
+func hasFailure(prog []Step) bool {
+	for _, st := range prog {
+		if st.Op == "panic" || st.Op == "failed" {
+			return true
+		}
+	}
+	return false
 }
 
 func hasStash(prog []Step) bool {
